@@ -57,7 +57,10 @@ func schema(tag string) []dump.File {
 // in its pipeline while the other runs from start to end.
 func schemaIncludes(tag string) []dump.File {
 	base := []string{"string", "uint8", "int32", "boolean"}[int(tag[len(tag)-1]-'0')%4]
-	fs := []dump.File{{Name: "inc.yang", Text: `module inc { ` + H("inc") + ` include s0; include s1; include s2; include s3; include s4; include s5; include s6; include s7; include s8; include s9; identity top; leaf own { type level; } }`}}
+	// ... and restrictions whose texts, written one behind the other, read the same in two sets
+	// (parent 0..1002 restricted to 5, parent 0..100 restricted to 25)
+	pr := [][2]string{{"0..1002", "5"}, {"0..100", "25"}, {"0..1000", "7"}, {"0..10", "02"}}[int(tag[len(tag)-1]-'0')%4]
+	fs := []dump.File{{Name: "inc.yang", Text: `module inc { ` + H("inc") + ` include s0; include s1; include s2; include s3; include s4; include s5; include s6; include s7; include s8; include s9; identity top; leaf own { type level; } typedef pct { type uint16 { range "` + pr[0] + `"; } } leaf x { type pct { range "` + pr[1] + `"; } } leaf len { type string { length "` + pr[0] + `"; } } }`}}
 	for i := 0; i < 10; i++ {
 		body := fmt.Sprintf(`leaf l%d { type string; }`, i)
 		switch i {
